@@ -1,3 +1,21 @@
-import GffProofs.Lemmas.SplitJoin
-open GffProofs
-#print axioms split_join
+import GffProofs.Props.C01
+open GffProofs.C01
+#print axioms wfprov_of_wf
+#print axioms orderConsistent_iff
+#print axioms orderConsistent_own
+#print axioms provided_render
+#print axioms reconstruct_keep_order
+#print axioms provided_parse_render_line
+#print axioms provided_print_parse_render
+#print axioms provided_print_parse_render_ko
+#print axioms row_roundtrip
+#print axioms row_roundtrip_print
+#print axioms stored_attrs_json
+#print axioms import_all_once_in_order
+#print axioms lookup_each
+#print axioms reopen_same
+#print axioms window_votes_dialect
+#print axioms printed_identical
+#print axioms printed_identical_of_window
+#print axioms reimport_equivalent
+#print axioms provided_eq_infer
